@@ -4,6 +4,7 @@
 ** unchanged and sf_error/sf_strerror must report a non-empty message; for successes sf_error must be 0.
 ** All interleavings of the call alphabet to depth 3 are enumerated per (format, mode).
 */
+#include <sys/wait.h>
 #include "vh.h"
 #include <dirent.h>
 #include <sys/time.h>
@@ -68,13 +69,20 @@ static int c_seek_ok (H *h, int *e, char *w) { sf_count_t r = sf_seek (h->s, 0, 
 	*e = EXP_OK ; snprintf (w, 100, "sf_seek (0, SEEK_SET) returned %ld", (long) r) ; return r == 0 ; }
 static int c_seek_whence (H *h, int *e, char *w) { sf_count_t r = sf_seek (h->s, 0, 77) ; *e = EXP_FAIL ; snprintf (w, 100, "sf_seek with whence 77 returned %ld", (long) r) ; return r == -1 ; }
 static int c_seek_negative (H *h, int *e, char *w) { sf_count_t r = sf_seek (h->s, -5, SEEK_SET) ; *e = EXP_FAIL ; snprintf (w, 100, "sf_seek (-5, SEEK_SET) returned %ld", (long) r) ; return r == -1 ; }
-static int c_seek_beyond (H *h, int *e, char *w) { sf_count_t r ; SF_VERIF_STATE st ; vh_state (h->s, &st) ; if (h->mode != SFM_READ) { *e = EXP_NEUTRAL ; return 1 ; }
+/* on a write or read/write handle a seek past the end may be accepted (the docs allow extending) or refused (block codecs refuse it): if it is refused it is a
+** failed out-of-range seek like any other, and must record an error and change nothing */
+static int seek_beyond_w (H *h, int *e, char *w, sf_count_t off, int whence, const char *txt)
+{	sf_count_t r = sf_seek (h->s, off, whence) ;
+	if (r == -1) { *e = EXP_FAIL ; snprintf (w, 100, "write handle: %s returned -1", txt) ; }
+	else { *e = EXP_NEUTRAL ; snprintf (w, 100, "write handle: %s returned %ld (accepted)", txt, (long) r) ; }
+	return 1 ; }
+static int c_seek_beyond (H *h, int *e, char *w) { sf_count_t r ; SF_VERIF_STATE st ; vh_state (h->s, &st) ; if (h->mode != SFM_READ) return seek_beyond_w (h, e, w, st.frames + 10, SEEK_SET, "sf_seek (frames+10, SEEK_SET)") ;
 	r = sf_seek (h->s, st.frames + 10, SEEK_SET) ; *e = EXP_FAIL ; snprintf (w, 100, "read handle: sf_seek (frames+10) returned %ld", (long) r) ; return r == -1 ; }
 static int seek_beyond_q (H *h, int *e, char *w, int q, const char *qn) { sf_count_t r ; SF_VERIF_STATE st ; vh_state (h->s, &st) ; if (h->mode != SFM_READ || !st.seekable) { *e = EXP_NEUTRAL ; return 1 ; }
 	r = sf_seek (h->s, st.frames + 10, SEEK_SET | q) ; *e = EXP_FAIL ; snprintf (w, 100, "read handle: sf_seek (frames+10, SEEK_SET|%s) returned %ld", qn, (long) r) ; return r == -1 ; }
 static int c_seek_beyond_r (H *h, int *e, char *w) { return seek_beyond_q (h, e, w, SFM_READ, "SFM_READ") ; }
 static int c_seek_beyond_rw (H *h, int *e, char *w) { return seek_beyond_q (h, e, w, SFM_RDWR, "SFM_RDWR") ; }
-static int c_seek_end_beyond (H *h, int *e, char *w) { sf_count_t r ; SF_VERIF_STATE st ; vh_state (h->s, &st) ; if (h->mode != SFM_READ || !st.seekable) { *e = EXP_NEUTRAL ; return 1 ; }
+static int c_seek_end_beyond (H *h, int *e, char *w) { sf_count_t r ; SF_VERIF_STATE st ; vh_state (h->s, &st) ; if (h->mode != SFM_READ && st.seekable) return seek_beyond_w (h, e, w, 3, SEEK_END, "sf_seek (+3, SEEK_END)") ; if (h->mode != SFM_READ || !st.seekable) { *e = EXP_NEUTRAL ; return 1 ; }
 	r = sf_seek (h->s, 3, SEEK_END) ; *e = EXP_FAIL ; snprintf (w, 100, "read handle: sf_seek (+3, SEEK_END) returned %ld", (long) r) ; return r == -1 ; }
 static int c_seek_cur_beyond (H *h, int *e, char *w) { sf_count_t r ; SF_VERIF_STATE st ; vh_state (h->s, &st) ; if (h->mode != SFM_READ || !st.seekable) { *e = EXP_NEUTRAL ; return 1 ; }
 	r = sf_seek (h->s, st.frames + 2, SEEK_CUR | SFM_READ) ; *e = EXP_FAIL ; snprintf (w, 100, "read handle: sf_seek (frames+2, SEEK_CUR|SFM_READ) returned %ld", (long) r) ; return r == -1 ; }
@@ -116,6 +124,8 @@ static int c_cue_set (H *h, int *e, char *w) { static SF_CUES cu ; SF_VERIF_STAT
 /* raw I/O: the byte count must be a whole number of frames (channels x bytes per sample; channels for the block codecs) */
 static int raw_unit (H *h) { int b = vh_sample_granular (h->format) ? vh_bits (h->format) / 8 : 0 ; return h->ch * (b > 0 ? b : 1) ; }
 static int c_write_raw_mis (H *h, int *e, char *w) { static unsigned char rb [256] ; sf_count_t r ; int u = raw_unit (h) ; if (u < 2) { *e = EXP_NEUTRAL ; return 1 ; } r = sf_write_raw (h->s, rb, u + 1) ; *e = EXP_FAIL ; snprintf (w, 100, "sf_write_raw with %d bytes (frame = %d bytes) returned %ld", u + 1, u, (long) r) ; return r == 0 ; }
+static int c_read_raw_neg (H *h, int *e, char *w) { static unsigned char rb [256] ; sf_count_t r ; int u = raw_unit (h) ; if (u < 1) { *e = EXP_NEUTRAL ; return 1 ; } r = sf_read_raw (h->s, rb, -u) ; *e = EXP_FAIL ; snprintf (w, 100, "sf_read_raw with -%d bytes returned %ld", u, (long) r) ; return r == 0 ; }
+static int c_write_raw_neg (H *h, int *e, char *w) { static unsigned char rb [256] ; sf_count_t r ; int u = raw_unit (h) ; if (u < 1) { *e = EXP_NEUTRAL ; return 1 ; } r = sf_write_raw (h->s, rb, -u) ; *e = EXP_FAIL ; snprintf (w, 100, "sf_write_raw with -%d bytes returned %ld", u, (long) r) ; return r == 0 ; }
 static int c_read_raw_mis (H *h, int *e, char *w) { static unsigned char rb [256] ; sf_count_t r ; int u = raw_unit (h) ; if (u < 2) { *e = EXP_NEUTRAL ; return 1 ; } r = sf_read_raw (h->s, rb, u + 1) ; *e = EXP_FAIL ; snprintf (w, 100, "sf_read_raw with %d bytes (frame = %d bytes) returned %ld", u + 1, u, (long) r) ; return r == 0 ; }
 
 /* strings: a valid title (accepted on write handles), and the empty title, which only SF_STR_SOFTWARE may be */
@@ -131,7 +141,7 @@ static CALL calls [] = {
 	{ "set_string(type 9999)", c_setstr_bad }, { "set_string(NULL)", c_setstr_null }, { "set_string(read-only)", c_setstr_readonly }, { "set_chunk(read-only)", c_setchunk_readonly },
 	{ "set_chunk(NULL)", c_setchunk_null }, { "get_string", c_getstr }, { "TRUNCATE(-3)", c_truncate_bad },
 	{ "SET_BROADCAST_INFO(size 10)", c_bext_small }, { "SET_BROADCAST_INFO(history size)", c_bext_hist }, { "SET_CART_INFO(size 10)", c_cart_small }, { "SET_INSTRUMENT(size-1)", c_inst_size },
-	{ "SET_CUE(size 2)", c_cue_size }, { "set_string(TITLE)", c_setstr_ok }, { "set_string(TITLE,empty)", c_setstr_empty }, { "SET_INSTRUMENT(valid)", c_inst_set }, { "SET_CUE(valid)", c_cue_set }, { "write_raw(frame+1 bytes)", c_write_raw_mis }, { "read_raw(frame+1 bytes)", c_read_raw_mis }, { "SET_CHANNEL_MAP_INFO(ch+1)", c_chmap_size }, { "SET_CHANNEL_MAP_INFO(bad position)", c_chmap_value },
+	{ "SET_CUE(size 2)", c_cue_size }, { "set_string(TITLE)", c_setstr_ok }, { "set_string(TITLE,empty)", c_setstr_empty }, { "SET_INSTRUMENT(valid)", c_inst_set }, { "SET_CUE(valid)", c_cue_set }, { "write_raw(frame+1 bytes)", c_write_raw_mis }, { "read_raw(frame+1 bytes)", c_read_raw_mis }, { "read_raw(-frame bytes)", c_read_raw_neg }, { "write_raw(-frame bytes)", c_write_raw_neg }, { "SET_CHANNEL_MAP_INFO(ch+1)", c_chmap_size }, { "SET_CHANNEL_MAP_INFO(bad position)", c_chmap_value },
 } ;
 #define NCALLS ((int) (sizeof (calls) / sizeof (calls [0])))
 
@@ -154,7 +164,14 @@ static void do_call (H *h, int ci)
 	if (h->nrec < 4) { REC *r = &h->rec [h->nrec++] ; r->expect = expect ; r->res = vh_fnv (g_data, why, strlen (why)) ; snprintf (r->why, sizeof (r->why), "%s", why) ; }
 	if (h->quiet) return ;
 	vh_stat (expect == EXP_FAIL || expect == EXP_FAIL_Q ? "invalid_calls_checked" : expect == EXP_OK ? "valid_calls_checked" : "neutral_calls", 1) ;
-	if (!ok) vh_viol (vh_key ("C09|return-value|%s|%s|%s", calls [ci].name, h->fn, h->mode == SFM_READ ? "r" : h->mode == SFM_WRITE ? "w" : "rw"), "history [%s]: %s", h->hist, why) ;
+	if (!ok)
+	{	/* one history class is told apart, so that it can be listed without hiding any other failed write: the file position was moved past the data offset by an
+		** accepted seek past the end, then metadata (a string, an instrument, cue points) changed the header size, and the header writer gives up with SFE_INTERNAL (WAV and RF64 also log "Oooops") */
+		const char *cause = "" ;
+		if (expect == EXP_OK && err == 29 && h->mode == SFM_WRITE && (strstr (h->hist, "seek(F+10,SET)") || strstr (h->hist, "seek(+3,END)")) && (strstr (h->hist, "set_string(TITLE)") || strstr (h->hist, "SET_INSTRUMENT(valid)") || strstr (h->hist, "SET_CUE(valid)")))
+			cause = "|internal-error-after-seek-past-end-and-header-growth" ;
+		vh_viol (vh_key ("C09|return-value|%s|%s|%s%s", calls [ci].name, h->fn, h->mode == SFM_READ ? "r" : h->mode == SFM_WRITE ? "w" : "rw", cause), "history [%s]: %s", h->hist, why) ;
+		}
 	if (expect == EXP_FAIL)
 	{	/* sf_command / sf_set_string / sf_set_chunk return the error number itself (docs: "can be converted with sf_error_number"): either channel counts */
 		if (err == 0 && last_rc > 0 && last_rc < 600) err = last_rc ;
@@ -169,7 +186,7 @@ static void do_call (H *h, int ci)
 		}
 	else if (expect == EXP_FAIL_Q)
 	{	if (d0 != d1) vh_viol (vh_key ("C09|state-changed-by-failed-call|%s|%s|%s", calls [ci].name, h->fn, h->mode == SFM_READ ? "r" : h->mode == SFM_WRITE ? "w" : "rw"), "history [%s]: %s; positions/frames/settings/metadata/file bytes changed", h->hist, why) ; }
-	else if (expect == EXP_OK && err != 0)
+	else if (expect == EXP_OK && ok && err != 0)		/* a valid call whose return value already says it failed is reported above, once */
 		vh_viol (vh_key ("C09|error-after-success|%s|%s", calls [ci].name, h->fn), "history [%s]: %s, yet sf_error = %d (%s)", h->hist, why, err, sf_strerror (h->s)) ;
 	vh_check_inv (h->s, calls [ci].name) ;
 }
@@ -199,36 +216,52 @@ static void twin_check (H *h, int format, int ch, int mode, const MEMF *base, in
 
 static int count_fds (void) { DIR *d = opendir ("/proc/self/fd") ; int n = 0 ; if (!d) return -1 ; while (readdir (d)) n++ ; closedir (d) ; return n ; }
 
+#define N_OPEN_FAIL 16
+static const char *open_what [N_OPEN_FAIL] = { "nonexistent path", "bad mode", "NULL SF_INFO", "invalid format for write", "virtual I/O without callbacks", "garbage file", "empty file for read", "directory", "zero channels write", "fd -1", "virtual I/O SFM_RDWR on a valid file without a write callback", "virtual I/O SFM_RDWR on a valid file without a read callback",
+	"path longer than any file name, for read", "path longer than any file name, for write", "write with a subtype and no container type", "raw read with zero channels" } ;	/* missing seek / tell callbacks are not judged: sf_open_virtual only demands them when the caller sets SF_INFO.seekable, and the docs say nothing else */
+static SNDFILE *failing_open (int k, const char *path, const char *sd, MEMF *m, SF_INFO *si)
+{	SNDFILE *s = NULL ; static SF_VIRTUAL_IO nv ; int fd = -1 ;
+	switch (k)
+	{	case 0 : s = sf_open ("/nonexistent/dir/file.wav", SFM_READ, si) ; break ;
+		case 1 : s = sf_open (path, 0x999, si) ; break ;
+		case 2 : s = sf_open (path, SFM_READ, NULL) ; break ;
+		case 3 : si->format = SF_FORMAT_WAV | SF_FORMAT_DWVW_12 ; si->channels = 1 ; si->samplerate = 8000 ; s = sf_open (path, SFM_WRITE, si) ; unlink (path) ; break ;
+		case 4 : memset (&nv, 0, sizeof (nv)) ; s = sf_open_virtual (&nv, SFM_READ, si, m) ; break ;
+		case 5 : { FILE *fp = fopen (path, "w") ; fputs ("this is certainly not a sound file, just some text that is long enough for detection", fp) ; fclose (fp) ; s = sf_open (path, SFM_READ, si) ; unlink (path) ; } break ;
+		case 6 : { FILE *fp = fopen (path, "w") ; fclose (fp) ; s = sf_open (path, SFM_READ, si) ; unlink (path) ; } break ;
+		case 7 : s = sf_open (sd ? sd : "/tmp", SFM_READ, si) ; break ;
+		case 8 : si->format = SF_FORMAT_WAV | SF_FORMAT_PCM_16 ; si->channels = 0 ; si->samplerate = 8000 ; s = sf_open (path, SFM_WRITE, si) ; unlink (path) ; break ;
+		case 9 : s = sf_open_fd (fd, SFM_READ, si, 0) ; break ;
+		case 12 : case 13 :
+		{	static char lp [5000] ; size_t n = (size_t) snprintf (lp, sizeof (lp), "%s/", sd ? sd : ".") ;
+			while (n < 4000) { memset (lp + n, 'a' + (int) (n % 23), 199) ; n += 199 ; lp [n++] = (n > 3900) ? 'x' : '/' ; }		/* components stay under NAME_MAX: the whole is over every path limit */
+			lp [n] = 0 ;
+			if (k == 13) { si->format = SF_FORMAT_WAV | SF_FORMAT_PCM_16 ; si->channels = 1 ; si->samplerate = 8000 ; }
+			s = sf_open (lp, k == 12 ? SFM_READ : SFM_WRITE, si) ; } break ;
+		case 14 : si->format = SF_FORMAT_PCM_16 ; si->channels = 1 ; si->samplerate = 8000 ; s = sf_open (path, SFM_WRITE, si) ; unlink (path) ; break ;
+		case 15 : { FILE *fp = fopen (path, "w") ; fputs ("0123456789abcdef0123456789abcdef", fp) ; fclose (fp) ; si->format = SF_FORMAT_RAW | SF_FORMAT_PCM_16 ; si->channels = 0 ; si->samplerate = 8000 ; s = sf_open (path, SFM_READ, si) ; unlink (path) ; } break ;
+		default :
+		{	static MEMF img ; SF_VIRTUAL_IO v = MVIO ; int md = SFM_RDWR ;
+			if (img.d == NULL) vh_make_file (&img, SF_FORMAT_WAV | SF_FORMAT_PCM_16, 2, 8000, 100, 1) ;
+			img.pos = 0 ;
+			if (k == 10) v.write = NULL ; else v.read = NULL ;
+			s = sf_open_virtual (&v, md, si, &img) ; } break ;
+		}
+	return s ;
+}
+
 static void open_failures (void)
 {	SF_INFO si ; SNDFILE *s ; int f0, f1 ; size_t a0, a1 ; char path [300] ; const char *sd = getenv ("VERIF_SCRATCH_DIR") ; MEMF m ; int k ;
-	static const char *what [] = { "nonexistent path", "bad mode", "NULL SF_INFO", "invalid format for write", "virtual I/O without callbacks", "garbage file", "empty file for read", "directory", "zero channels write", "fd -1", "virtual I/O SFM_RDWR on a valid file without a write callback", "virtual I/O SFM_RDWR on a valid file without a read callback" } ;	/* missing seek / tell callbacks are not judged: sf_open_virtual only demands them when the caller sets SF_INFO.seekable, and the docs say nothing else */
+	const char **what = open_what ;
 	setvbuf (stdout, NULL, _IOFBF, 1 << 14) ;
 	(void) count_fds () ;
-	for (k = 0 ; k < 12 ; k++)
+	for (k = 0 ; k < N_OPEN_FAIL ; k++)
 	{	int pass ;
 		for (pass = 0 ; pass < 2 ; pass++)		/* first pass warms up lazily allocated libc state */
-		{	SF_VIRTUAL_IO nv ; int fd = -1 ;
-			memset (&si, 0, sizeof (si)) ; memset (&m, 0, sizeof (m)) ; memset (&nv, 0, sizeof (nv)) ;
+		{	memset (&si, 0, sizeof (si)) ; memset (&m, 0, sizeof (m)) ;
 			snprintf (path, sizeof (path), "%s/c09_open_%d_%d", sd ? sd : ".", (int) getpid (), k) ;
 			f0 = count_fds () ; a0 = vh_heap_bytes () ;
-			switch (k)
-			{	case 0 : s = sf_open ("/nonexistent/dir/file.wav", SFM_READ, &si) ; break ;
-				case 1 : s = sf_open (path, 0x999, &si) ; break ;
-				case 2 : s = sf_open (path, SFM_READ, NULL) ; break ;
-				case 3 : si.format = SF_FORMAT_WAV | SF_FORMAT_DWVW_12 ; si.channels = 1 ; si.samplerate = 8000 ; s = sf_open (path, SFM_WRITE, &si) ; unlink (path) ; break ;
-				case 4 : s = sf_open_virtual (&nv, SFM_READ, &si, &m) ; break ;
-				case 5 : { FILE *fp = fopen (path, "w") ; fputs ("this is certainly not a sound file, just some text that is long enough for detection", fp) ; fclose (fp) ; s = sf_open (path, SFM_READ, &si) ; unlink (path) ; } break ;
-				case 6 : { FILE *fp = fopen (path, "w") ; fclose (fp) ; s = sf_open (path, SFM_READ, &si) ; unlink (path) ; } break ;
-				case 7 : s = sf_open (sd ? sd : "/tmp", SFM_READ, &si) ; break ;
-				case 8 : si.format = SF_FORMAT_WAV | SF_FORMAT_PCM_16 ; si.channels = 0 ; si.samplerate = 8000 ; s = sf_open (path, SFM_WRITE, &si) ; unlink (path) ; break ;
-				case 9 : s = sf_open_fd (fd, SFM_READ, &si, 0) ; break ;
-				default :
-				{	static MEMF img ; SF_VIRTUAL_IO v = MVIO ; int md = SFM_RDWR ;
-					if (img.d == NULL) vh_make_file (&img, SF_FORMAT_WAV | SF_FORMAT_PCM_16, 2, 8000, 100, 1) ;
-					img.pos = 0 ;
-					if (k == 10) v.write = NULL ; else v.read = NULL ;
-					s = sf_open_virtual (&v, md, &si, md == SFM_WRITE ? (void *) &m : (void *) &img) ; } break ;
-				}
+			s = failing_open (k, path, sd, &m, &si) ;
 			a1 = vh_heap_bytes () ; f1 = count_fds () ;
 			if (pass == 0) { if (s) sf_close (s) ; continue ; }
 			vh_stat ("failed_opens_checked", 1) ;
@@ -237,6 +270,25 @@ static void open_failures (void)
 			if (!sf_strerror (NULL) || !*sf_strerror (NULL)) vh_viol (vh_key ("C09|open-fail-empty-text|%s", what [k]), "empty sf_strerror (NULL)") ;
 			if (f1 != f0) vh_viol (vh_key ("C09|open-fail-descriptor-leak|%s", what [k]), "open descriptors %d -> %d", f0, f1) ;
 			if (a1 > a0) vh_viol (vh_key ("C09|open-fail-heap-leak|%s", what [k]), "live heap %zu -> %zu bytes", a0, a1) ;
+			}
+		/* the global error outlives a failed open, so a later failure that sets nothing would hide behind the earlier one: the same open once more as the
+		** first library call of a fresh process, where the global error can only be what this open left */
+		{	pid_t pid ; int st = 0 ;
+			fflush (stdout) ; fflush (stderr) ;
+			snprintf (path, sizeof (path), "%s/c09_open_%d_%d_c", sd ? sd : ".", (int) getpid (), k) ;
+			pid = fork () ;
+			if (pid == 0)
+			{	int rc = 0 ; memset (&si, 0, sizeof (si)) ; memset (&m, 0, sizeof (m)) ;
+				s = failing_open (k, path, sd, &m, &si) ;
+				if (s != NULL) rc = 5 ; else if (sf_error (NULL) == 0) rc = 3 ; else if (!sf_strerror (NULL) || !*sf_strerror (NULL) || !strcmp (sf_strerror (NULL), sf_error_number (0))) rc = 4 ;
+				_exit (rc) ; }
+			if (pid > 0 && waitpid (pid, &st, 0) == pid && WIFEXITED (st))
+			{	vh_stat ("failed_opens_checked_in_a_fresh_process", 1) ;
+				if (WEXITSTATUS (st) == 3) vh_viol (vh_key ("C09|open-fail-no-error|%s|fresh-process", what [k]), "NULL returned and sf_error (NULL) is 0 when this is the process's first library call") ;
+				else if (WEXITSTATUS (st) == 4) vh_viol (vh_key ("C09|open-fail-empty-text|%s|fresh-process", what [k]), "sf_strerror (NULL) is empty or the no-error text when this is the process's first library call") ;
+				else if (WEXITSTATUS (st) != 0 && WEXITSTATUS (st) != 5) vh_note ("fresh-process open %d: child exit status %d (not judged)", k, WEXITSTATUS (st)) ;
+				}
+			else vh_note ("fresh-process open %d: no child verdict (not judged)", k) ;
 			}
 		}
 	/* NULL handle */
@@ -260,14 +312,20 @@ static void open_failures (void)
 int main (int argc, char **argv)
 {	static const int fmts [][2] = { { SF_FORMAT_WAV | SF_FORMAT_PCM_16, 2 }, { SF_FORMAT_WAV | SF_FORMAT_FLOAT, 2 }, { SF_FORMAT_AIFF | SF_FORMAT_PCM_24, 2 }, { SF_FORMAT_AU | SF_FORMAT_ULAW, 2 },
 		{ SF_FORMAT_CAF | SF_FORMAT_PCM_32, 3 }, { SF_FORMAT_W64 | SF_FORMAT_DOUBLE, 2 }, { SF_FORMAT_RAW | SF_FORMAT_PCM_16, 2 }, { SF_FORMAT_WAV | SF_FORMAT_IMA_ADPCM, 2 },
-		{ SF_FORMAT_AIFF | SF_FORMAT_DWVW_16, 1 }, { SF_FORMAT_WAV | SF_FORMAT_GSM610, 1 }, { SF_FORMAT_RF64 | SF_FORMAT_PCM_16, 2 }, { SF_FORMAT_CAF | SF_FORMAT_ALAC_16, 2 } } ;
+		{ SF_FORMAT_AIFF | SF_FORMAT_DWVW_16, 1 }, { SF_FORMAT_WAV | SF_FORMAT_GSM610, 1 }, { SF_FORMAT_RF64 | SF_FORMAT_PCM_16, 2 }, { SF_FORMAT_CAF | SF_FORMAT_ALAC_16, 2 },
+		/* codecs that pack frames into blocks and have their own seek functions */
+		{ SF_FORMAT_PAF | SF_FORMAT_PCM_24, 2 }, { SF_FORMAT_SDS | SF_FORMAT_PCM_16, 1 }, { SF_FORMAT_XI | SF_FORMAT_DPCM_16, 1 }, { SF_FORMAT_MAT5 | SF_FORMAT_DOUBLE, 2 }, { SF_FORMAT_WAV | SF_FORMAT_MS_ADPCM, 2 }, { SF_FORMAT_AU | SF_FORMAT_G721_32, 1 } } ;
+#define NFMTS 18
 	static const int modes [] = { SFM_READ, SFM_WRITE, SFM_RDWR } ;
 	int f, mi, a, b, c ;
 	vh_init (argc, argv, "c09_invalid_calls", "C09") ;
 	vh_case_secs = 900 ;		/* a depth-4 case runs 69 000 histories twice */
 	if (vh_case ("open failures, NULL handle, error-number table")) { vh_distinct (1) ; vh_distinct (2) ; open_failures () ; }
-	for (f = 0 ; f < 12 ; f++) for (mi = 0 ; mi < 3 ; mi++) for (a = 0 ; a < NCALLS ; a++)
+	for (f = 0 ; f < NFMTS ; f++) for (mi = 0 ; mi < 3 ; mi++) for (a = 0 ; a < NCALLS ; a++)
 	{	MEMF base ; int format = fmts [f][0], ch = fmts [f][1], depth = (vh_thorough && (f == 0 || f == 2 || f == 4 || f == 7)) ? 4 : 3, d ;
+		/* G.72x and XI DPCM open in SFM_RDWR but implement no write there: every write fails with SFE_UNIMPLEMENTED, which is a recorded failure and not this
+		** property's business; the model of "valid write succeeds" does not describe them, so they run in read and write mode only */
+		if (mi == 2 && ((format & SF_FORMAT_SUBMASK) == SF_FORMAT_G721_32 || (format & SF_FORMAT_SUBMASK) == SF_FORMAT_DPCM_16)) continue ;
 		if (!vh_case ("%s ch=%d mode=%s first=%s depth=%d", vh_fname (format), ch, mi == 0 ? "read" : mi == 1 ? "write" : "rdwr", calls [a].name, depth)) continue ;
 		if (vh_make_file (&base, format, ch, 8000, 700, 1) != 0) { mv_free (&base) ; continue ; }
 		vh_sample ("%s ch=%d mode=%s: every sequence of %d calls from the %d-call alphabet starting with %s; each history with a failed call is re-run without its failed calls on a twin handle", vh_fname (format), ch, mi == 0 ? "read" : mi == 1 ? "write" : "rdwr", depth, NCALLS, calls [a].name) ;
